@@ -5,6 +5,19 @@ From DesVerif Require Import Props.Spec Props.Model Props.Bytes.
 Import ListNotations.
 Open Scope N_scope.
 
+(* The proofs about what update_from captures instantiate it with plain name/value lists and a
+   first-set-wins `set`; Generic.v transfers the results to the property store of the model. *)
+Definition props := list (str * value).
+Definition p_has (k : str) (ps : props) : bool := existsb (fun e => str_eqb k (fst e)) ps.
+Definition p_set (k : str) (v : value) (ps : props) : props :=
+  if p_has k ps then ps else ps ++ [(k, v)].
+
+Notation pfold := (Model.pfold props p_set).
+Notation take_all := (Model.take_all props p_set).
+Notation prefix_loop := (Model.prefix_loop props).
+Notation direct := (Model.direct props p_set).
+Notation update_from := (Model.update_from props p_set).
+
 Definition hasP (name : str) (ps : props) : Prop := exists v, In (name, v) ps.
 
 (* ---- Props::set ---- *)
@@ -78,7 +91,7 @@ Lemma ploop_step upd m ps (done : list str) s rest :
   prefix_loop upd m (match m_get (join_dot (done ++ [s])) m with Some e => upd ps e rest | None => ps end)
               (join_dot (done ++ [s])) (isnil (done ++ [s])) rest.
 Proof.
-  cbn [prefix_loop].
+  cbn [Model.prefix_loop].
   assert ((if isnil done then join_dot done else join_dot done ++ [DOT]) ++ s = join_dot (done ++ [s])) as E.
   { destruct done as [|h d]; [reflexivity|]. cbn [isnil]. rewrite join_dot_app by discriminate.
     cbn [join_dot]. rewrite <- app_assoc. reflexivity. }
